@@ -46,7 +46,8 @@ class FakePort:
     (bytes / SymBytes, b'' for a timeout) or raises; ``on_write(port, payload)`` may raise to model a
     write fault and may queue replies."""
 
-    def __init__(self, responder=None, on_write=None):
+    def __init__(self, responder=None, on_write=None, sym=False):
+        self.sym = sym          # return SymBytes even for concrete lines (needed when requests are SymStr)
         self.writes = []        # decoded payloads (SymStr), in order
         self.raw_writes = []
         self.n_reads = 0
@@ -77,6 +78,9 @@ class FakePort:
         else:
             line = b""
         self.events.append(("r", line))
+        if self.sym and isinstance(line, (bytes, bytearray)):
+            txt = bytes(line).decode("latin-1")
+            line = SymBytes(from_token_str(txt) if has_token(txt) else SymStr(tuple(txt)))
         return line
 
     def close(self):
